@@ -524,6 +524,15 @@ def c03(rac, units, tier, seed):
     n = 300 if tier == "quick" else 4000
     rep = Report("C03 conversions through the OP_CAST arm", f"{n} random commensurable triples: round trip, via, linearity, prefix = power of ten, product/power law")
     rnd = random.Random(seed)
+    # an SI prefix is exactly its power of ten, also under a power: prefix x power beyond the range of single prefixes, on either side
+    pre = {"G": 9, "T": 12, "f": -15, "n": -9, "k": 3, "m": -3, "Y": 24, "y": -24}
+    for pf, e in pre.items():
+        for pw in (2, 3, -2, -3):
+            for x in (F(1), F(5)):
+                sh = e * pw
+                expect_value(rep, rac, f"{x} m^{pw} to {pf}m^{pw}", x / F(10) ** sh, unit_empty=False)
+                expect_value(rep, rac, f"{x} {pf}m^{pw} to m^{pw}", x * F(10) ** sh, unit_empty=False)
+                expect_value(rep, rac, f"({x} m^{pw} to {pf}m^{pw}) to m^{pw}", x, unit_empty=False)
     words = _ok_words(rac, _unit_words(units))
     by_dim = {}
     for w, nm, pe in words:
